@@ -273,6 +273,9 @@ def parse_url_pattern(src):
     return [o, c]
 
 
+PINNED_INSTALLS = [["AUDIT", ["not hasattr(logger, 'audit')"]], ["ALERT", ["not hasattr(logging, 'alert')"]], ["DEBUG", []], ["INFO", []], ["WARNING", []], ["ERROR", []]]
+
+
 def generate(o):
     lf = Src("orso/logging/log_formatter.py")
     disp = Src("orso/display.py")
@@ -437,6 +440,43 @@ def generate(o):
         # a new caller of the sanitiser / a new output path is not covered by the harness until someone looks
         o.degraded.append("c20.call_sites changed: new %s, gone %s" % (new_sites[:6], gone_sites[:6]))
 
+    # get_logger(): which add_logging_level(NAME, ...) calls run on every call and which sit under a test of what the
+    # process already holds (`if not hasattr(logger, "audit")`): [NAME, [source of every enclosing test, outermost first]]
+    def level_installs():
+        cl = Src("orso/logging/create_logger.py")
+        fn = cl.func("get_logger")
+        found = []
+
+        def walk(stmts, guards):
+            for st in stmts:
+                if isinstance(st, ast.If):
+                    src = ast.unparse(st.test)
+                    walk(st.body, guards + [src])
+                    walk(st.orelse, guards + ["not (%s)" % src])
+                elif isinstance(st, (ast.For, ast.While, ast.With, ast.Try)):
+                    inner = guards + ["<%s>" % type(st).__name__.lower()]
+                    for part in ("body", "orelse", "finalbody"):
+                        walk(getattr(st, part, []) or [], inner)
+                    for h in getattr(st, "handlers", []) or []:
+                        walk(h.body, inner)
+                else:
+                    for n in ast.walk(st):
+                        if isinstance(n, ast.Call) and (getattr(n.func, "id", None) == "add_logging_level" or getattr(n.func, "attr", None) == "add_logging_level"):
+                            if isinstance(st, ast.Return):
+                                raise KeyError("add_logging_level inside a return")
+                            if not n.args or not isinstance(n.args[0], ast.Constant) or not isinstance(n.args[0].value, str):
+                                raise KeyError("add_logging_level with a computed name")
+                            found.append([n.args[0].value, list(guards)])
+                if isinstance(st, ast.Return) and not guards:
+                    break
+        # statements after an unguarded early return do not run: the GoogleLogger branch returns under its own test
+        walk(fn.body, [])
+        if not found:
+            raise KeyError("no add_logging_level call in get_logger")
+        return found
+
+    installs = o.item("c20.level_installs", level_installs, PINNED_INSTALLS)
+
     exch = o.item("c20.COLOR_EXCHANGES", lambda: [[k, v] for k, v in lf.assign("COLOR_EXCHANGES").items()], PINNED_EXCH)
     codes = o.item("c20.COLOR_CODES", lambda: dict(lf.assign("COLOR_CODES")), PINNED_CODES)
     for k in PINNED_CODES:
@@ -494,5 +534,7 @@ def generate(o):
         text += "def code%s : List Char := %s\n" % (k.capitalize(), chars(codes[k]))
     text += "/-- orso.display.COLORS in source order -/\n"
     text += "def displayColors : List (List Char × List Char) := %s\n" % lean_list(colors, pair)
+    text += "/-- get_logger(): every add_logging_level(NAME, ..) call with the tests it sits under (none: runs on every call) -/\n"
+    text += "def levelInstalls : List (String × List String) := %s\n" % lean_list(installs, lambda p: "(%s, %s)" % (lean_str(p[0]), lean_list(p[1], lean_str)))
     text += "end Gen.Sanitise\n"
     o.files["Sanitise.lean"] = text
